@@ -235,6 +235,26 @@ def envTree (vars : List (String × Val)) : Kids :=
     | some (top :: rest) => if sections.contains top && !rest.isEmpty then some (top :: rest, v) else none
     | _ => none)) []
 
+/-- settings of the environment source (`Settings.model_config`) that decide whether a variable's text arrives as it is -/
+structure EnvKnobs where
+  ignoreEmpty : Bool         -- `env_ignore_empty`: a variable whose text is empty is dropped
+  noneText : Option String   -- `env_parse_none_str`: a variable with exactly this text becomes `None`
+deriving DecidableEq, Repr
+
+/-- the pinned tree sets neither (checked against the live `model_config` by the translator obligation `env_values_verbatim`) -/
+def pinnedKnobs : EnvKnobs := ⟨false, none⟩
+
+/-- what the environment source makes of one decoded value under the knobs; `none`: the variable is dropped -/
+def knobVal (k : EnvKnobs) : Val → Option Val
+  | .str s => if k.ignoreEmpty && decide (s = "") then none else if k.noneText = some s then some .null else some (.str s)
+  | v => some v
+
+def envVarsWith (k : EnvKnobs) (vars : List (String × Val)) : List (String × Val) :=
+  vars.filterMap (fun nv => (knobVal k nv.2).map (fun v => (nv.1, v)))
+
+/-- the dict pydantic-settings builds from the environment under the given knobs -/
+def envTreeWith (k : EnvKnobs) (vars : List (String × Val)) : Kids := envTree (envVarsWith k vars)
+
 /-- what is handed to validation: explicit input (file merged with options) over environment over `.env` file -/
 def effective (explicit env dotenv : Kids) : Kids := combine explicit (combine env dotenv)
 
